@@ -620,6 +620,10 @@ class Path:
                 if st3 != "unknown":
                     status, backend, wit = st3, "z3", wit3
                     det = f"{detail} {det4} (second attempt, 6x budget)".strip()
+        if status == "refuted" and getattr(self, "weak_invariant", None):
+            status = "unknown"
+            det = (det + " [counter-model only: the path runs through a loop contract whose invariant does not constrain "
+                   + "; ".join(self.weak_invariant) + "]")[:900]
         ob = Obligation(name, " ".join(self.sig), status, backend, time.time() - t0, det, wit, kind)
         self.ex.record(ob)
         return status == "proved"
